@@ -32,8 +32,11 @@ VERIF = os.path.dirname(os.path.dirname(os.path.abspath(__file__)))
 REPO = os.environ.get("VERIF_REPO", "/repo")
 SPEC = os.path.join(VERIF, "spec")
 HARNESS = os.path.join(VERIF, "harness")
-EVIDENCE = os.path.join(VERIF, "evidence")
-REPLAYS = os.path.join(VERIF, "replays")
+# evidence/ and replays/ describe runs against /repo itself; runs against another checkout
+# (VERIF_REPO=<scratch worktree>: seeded changes, mutations) write to *-alt/ (git-ignored)
+_ALT = "" if os.path.realpath(REPO) == "/repo" else "-alt"
+EVIDENCE = os.path.join(VERIF, "evidence" + _ALT)
+REPLAYS = os.path.join(VERIF, "replays" + _ALT)
 KNOWN = os.path.join(VERIF, "known_findings.json")
 MODULE = "github.com/robustirc/robustirc"
 
